@@ -254,6 +254,84 @@ func longHistories(c *seq.Ctx) {
 	}
 }
 
+// hashNearMisses: "verification fails for any other hash" - every single-position variant of the
+// returned hash (each character replaced by its other-case form, by a neighbouring digit, removed,
+// or doubled), the whole-string case/blank/prefix/suffix variants, and the hash of the other pair,
+// each tried with the RIGHT code on a fresh logic (so the attempt limit does not decide).
+func hashNearMisses(c *seq.Ctx) {
+	for _, mock := range []bool{true, false} {
+		for _, codeLen := range []int{4, 6} {
+			cf := cfg{codeLen, 2, 2, true, false, true, mock}
+			probe := func(variant func(h, other string) string, what string) {
+				cp := &capture{last: map[pair]string{}}
+				l := vcode.NewSimpleLogic(cf.config(), cp, nil)
+				p, q := pairs[0], pairs[1]
+				hash, err := l.SendSMSCode(p.area, p.phone)
+				other, err2 := l.SendSMSCode(q.area, q.phone)
+				if err != nil || err2 != nil {
+					c.Case("hash/send", fmt.Sprintf("first sends refused: %v %v", err, err2), "first send refused", func() interface{} { return what })
+					return
+				}
+				code := mockCode(p.phone, codeLen)
+				if !mock {
+					code = cp.last[p]
+				}
+				h := variant(hash, other)
+				bad := ""
+				if h != hash {
+					if l.VerifySMSCode(p.area, p.phone, code, h) == nil {
+						bad = fmt.Sprintf("the right code with hash %q verified although the hash handed out was %q (%s)", h, hash, what)
+					}
+				}
+				if bad == "" {
+					if e := l.VerifySMSCode(p.area, p.phone, code, hash); e != nil {
+						bad = fmt.Sprintf("after one refused near-miss hash (%s) the right code and hash are rejected on attempt 2 of 2: %v", what, e)
+					}
+				}
+				c.Case(fmt.Sprintf("hash/%v", bad == ""), bad, "a hash other than the one handed out verifies", func() interface{} { return fmt.Sprintf("mock=%v len=%d %s", mock, codeLen, what) })
+			}
+			whole := map[string]func(h, o string) string{
+				"upper-cased": func(h, o string) string { return strings.ToUpper(h) }, "lower-cased": func(h, o string) string { return strings.ToLower(h) },
+				"empty": func(h, o string) string { return "" }, "other pair's hash": func(h, o string) string { return o },
+				"leading blank": func(h, o string) string { return " " + h }, "trailing blank": func(h, o string) string { return h + " " }, "trailing newline": func(h, o string) string { return h + "\n" },
+				"trailing NUL": func(h, o string) string { return h + "\x00" }, "0x prefix": func(h, o string) string { return "0x" + h }, "doubled": func(h, o string) string { return h + h },
+				"first half": func(h, o string) string { return h[:len(h)/2] }, "with dashes (uuid form)": func(h, o string) string {
+					if len(h) < 20 {
+						return h + "-"
+					}
+					return h[:8] + "-" + h[8:12] + "-" + h[12:16] + "-" + h[16:20] + "-" + h[20:]
+				},
+			}
+			for what, f := range whole {
+				probe(f, what)
+			}
+			for pos := 0; pos < 40; pos++ {
+				pos := pos
+				at := func(edit func(b byte) string) func(h, o string) string {
+					return func(h, o string) string {
+						if pos >= len(h) {
+							return h
+						}
+						return h[:pos] + edit(h[pos]) + h[pos+1:]
+					}
+				}
+				probe(at(func(b byte) string {
+					switch {
+					case 'a' <= b && b <= 'z':
+						return string(b - 32)
+					case 'A' <= b && b <= 'Z':
+						return string(b + 32)
+					}
+					return string(b)
+				}), fmt.Sprintf("character %d in its other case", pos))
+				probe(at(func(b byte) string { return string(b ^ 1) }), fmt.Sprintf("character %d with its lowest bit flipped", pos))
+				probe(at(func(b byte) string { return "" }), fmt.Sprintf("character %d removed", pos))
+				probe(at(func(b byte) string { return string(b) + string(b) }), fmt.Sprintf("character %d doubled", pos))
+			}
+		}
+	}
+}
+
 // ---- small cache: the logic keeps its per-destination records in an LRU of CacheSize entries ----
 //
 // A destination's record may legitimately disappear once CacheSize other destinations were used after
@@ -402,7 +480,7 @@ func nonce(c *seq.Ctx) {
 
 func main() {
 	r := ev.Start("C19")
-	r.Rule("for every configuration (code length 4/6 x attempt limit 1/2 x send limit 1/2 x lifetime valid/expired x interval never/always-too-frequent x window never/always refreshed x mock on/off, clock frozen) every sequence of Send / Verify(right|wrong code x right|wrong hash) / Verify with the other pair's credentials over two (area, phone) pairs up to the stated depth on the real logic with a capturing SMS sender, against a per-pair reference (code, hash, attempts, sends); a second pair set whose plain concatenations collide (1,23)/(12,3); a small-cache family (record cache of 1-3 entries, one destination more than entries, sequences of sends and right/wrong verifies: a sent code stays verifiable until CacheSize other destinations were used); the nonce generator driven with every index answer; distinct = (op, answer) pairs")
+	r.Rule("for every configuration (code length 4/6 x attempt limit 1/2 x send limit 1/2 x lifetime valid/expired x interval never/always-too-frequent x window never/always refreshed x mock on/off, clock frozen) every sequence of Send / Verify(right|wrong code x right|wrong hash) / Verify with the other pair's credentials over two (area, phone) pairs up to the stated depth on the real logic with a capturing SMS sender, against a per-pair reference (code, hash, attempts, sends); a second pair set whose plain concatenations collide (1,23)/(12,3); a small-cache family (record cache of 1-3 entries, one destination more than entries, sequences of sends and right/wrong verifies: a sent code stays verifiable until CacheSize other destinations were used); the nonce generator driven with every index answer; a hash family (every single-character case/bit/removal/doubling variant and the whole-string case, blank, prefix, suffix, dashed and other-pair variants of the handed-out hash, each with the right code on a fresh logic: refused, and the true hash still verifies afterwards); distinct = (op, answer) pairs")
 	r.Assume("time.Now in vcode/vlogic.go is redirected to a frozen virtual clock (regimes decide every comparison)", "the send-count clause is checked as: sends <= MaxCount accepted, sends > MaxCount+1 refused")
 	vtime.NowFn = func() time.Time { return time.Unix(1700000000, 0) }
 	var jobs []func()
@@ -463,6 +541,7 @@ func main() {
 	}
 	jobs = append(jobs, func() { seq.RunFamily(r, seq.Family{Name: "nonce", Run: nonce}) })
 	jobs = append(jobs, func() { seq.RunFamily(r, seq.Family{Name: "long-attempt-histories", Run: longHistories}) })
+	jobs = append(jobs, func() { seq.RunFamily(r, seq.Family{Name: "hash-near-misses", Run: hashNearMisses}) })
 	seq.Parallel(16, jobs)
 	r.Finish()
 }
